@@ -80,7 +80,11 @@ func genRandOps(r *Rng, w *world, n int) []randOp {
 		case k < 41:
 			ops = append(ops, randOp{kind: "GetCodeSize", a: addr()})
 		case k < 44:
-			ops = append(ops, randOp{kind: "AddRefund", v: Bi(int64(r.Intn(5000)))})
+			if r.Chance(4) {
+				ops = append(ops, randOp{kind: "AddRefund", v: new(big.Int).SetUint64(^uint64(0) - uint64(r.Intn(3)))}) // uint64 overflow: go-ethereum wraps, evermint panics
+			} else {
+				ops = append(ops, randOp{kind: "AddRefund", v: Bi(int64(r.Intn(5000)))})
+			}
 		case k < 46:
 			ops = append(ops, randOp{kind: "SubRefund", v: Bi(int64(r.Intn(8) * r.Intn(8) * r.Intn(60)))})
 		case k < 47:
@@ -292,7 +296,11 @@ func runRandCase(w *world, r *Rng, idx int, seed uint64, side *Sidecar) (terms [
 	}
 	universe := dedup(w.opsUniverse())
 	gs, _ := w.mirror(base, universe)
-	ops := genRandOps(r, w, 20+r.Intn(50))
+	// two transactions: the second one looks at what the end-of-transaction step of the first left behind
+	ops1 := genRandOps(r, w, 20+r.Intn(50))
+	ops2 := genRandOps(r, w, 4+r.Intn(14))
+	k1 := len(ops1)
+	ops := append(append(append([]randOp{}, ops1...), randOp{kind: "Finalise"}), ops2...)
 	ops = append(ops, randOp{kind: "Finalise"})
 	rep := randReport{Case: idx, Seed: seed}
 	for _, o := range ops {
@@ -319,24 +327,47 @@ func runRandCase(w *world, r *Rng, idx int, seed uint64, side *Sidecar) (terms [
 	preE := views(func(a common.Address) acctView { return w.evmView(base, a) }, true, func(a common.Address) uint64 { return w.accountNumber(base, a) })
 	nextNum := w.nextAccountNumber(base)
 	cfg, _ := w.c.App.EvmKeeper.EVMConfig(base, nil)
-	sdb := evmvm.NewStateDB(base, cfg.CoinBase, w.c.App.EvmKeeper, w.c.App.AccountKeeper, w.c.App.BankKeeper)
+	newSdb := func() evmvm.CStateDB {
+		return evmvm.NewStateDB(base, cfg.CoinBase, w.c.App.EvmKeeper, w.c.App.AccountKeeper, w.c.App.BankKeeper)
+	}
+	sdb := newSdb()
 	recE := &recDB{in: sdb}
-	pE, msgE := applyRandOps(recE, ops[:len(ops)-1])
+	pE, msgE := applyRandOps(recE, ops[:k1])
 	if pE < 0 {
 		if p := CatchPanic(func() { _ = sdb.CommitMultiStore(true) }); p != nil {
-			pE, msgE = len(ops)-1, fmt.Sprint(p)
+			pE, msgE = k1, fmt.Sprint(p)
 		} else {
 			recE.log = append(recE.log, opRec{Op: "Finalise"})
+			// the next transaction gets a new StateDB over the committed context
+			sdb2 := newSdb()
+			recE2 := &recDB{in: sdb2, nsnap: recE.nsnap}
+			p2, m2 := applyRandOps(recE2, ops[k1+1:len(ops)-1])
+			if p2 >= 0 {
+				pE, msgE = k1+1+p2, m2
+			} else if p := CatchPanic(func() { _ = sdb2.CommitMultiStore(true) }); p != nil {
+				pE, msgE = len(ops)-1, fmt.Sprint(p)
+			} else {
+				recE2.log = append(recE2.log, opRec{Op: "Finalise"})
+			}
+			recE.log = append(recE.log, recE2.log...)
 		}
 	}
-	// ---- go-ethereum
+	// ---- go-ethereum: the same StateDB goes on after Finalise
 	preG := views(func(a common.Address) acctView { return gethView(gs, a) }, false, func(common.Address) uint64 { return 0 })
 	var gdb corevm.StateDB = &refStateDB{StateDB: gs, extraWarm: []common.Address{cfg.CoinBase}}
 	recG := &recDB{in: gdb}
-	pG, msgG := applyRandOps(recG, ops[:len(ops)-1])
+	pG, msgG := applyRandOps(recG, ops[:k1])
 	if pG < 0 {
 		gs.Finalise(true)
 		recG.log = append(recG.log, opRec{Op: "Finalise"})
+		recG.lastOf, recG.live = nil, nil
+		p2, m2 := applyRandOps(recG, ops[k1+1:len(ops)-1])
+		if p2 >= 0 {
+			pG, msgG = k1+1+p2, m2
+		} else {
+			gs.Finalise(true)
+			recG.log = append(recG.log, opRec{Op: "Finalise"})
+		}
 	}
 
 	emit := func(isGeth bool, rec *recDB, panicAt int, pre []string, post []string) {
